@@ -175,6 +175,44 @@ fn declared_lengths_agree(s: &str, o: u32) -> bool {
     ok
 }
 
+/// A character source that fails after k characters (`parse_utf8_with` over `Result` items)
+/// behaves as the byte entry point does on the same k characters followed by an ill-formed
+/// byte: the same syntax error if there is one strictly before, else `Stream` exactly where
+/// the byte entry point reports `InvalidUtf8` (position, span, and `Options::flexible()` =
+/// both options on).
+fn stream_errors_agree(s: &str, o: u32) -> bool {
+    let n = s.chars().count();
+    let cuts: Vec<usize> = if n <= 10 { (0..=n).collect() } else { vec![0, 1, n / 3, n / 2, n - 1, n] };
+    let options = if o == 3 { Options::flexible() } else { opts(o) };
+    let mut ok = opts(3) == Options::flexible() || {
+        let f = Options::flexible();
+        f.accept_truncated_surrogate_pair && f.accept_invalid_codepoints
+    };
+    for k in cuts {
+        let prefix: String = s.chars().take(k).collect();
+        let mut bytes = prefix.clone().into_bytes();
+        bytes.push(0xff);
+        let by = Value::parse_slice_with(&bytes, options);
+        let st = Value::parse_utf8_with(prefix.chars().map(Ok::<char, ()>).chain(std::iter::once(Err(()))), options);
+        let a = full_mapped(&by, &|p| p.to_string());
+        let b = match &st {
+            Err(Error::Stream(p, ())) => {
+                let e = st.as_ref().err().unwrap();
+                format!("ERR IU {} P{} S{}-{}", p, e.position(), e.span().start(), e.span().end())
+            }
+            _ => full_mapped(&st, &|p| p.to_string()),
+        };
+        ok &= a == b && a.starts_with("ERR");
+        if let Ok((v, _)) = by {
+            drop_deep(v);
+        }
+        if let Ok((v, _)) = st {
+            drop_deep(v);
+        }
+    }
+    ok
+}
+
 fn full<E>(r: Result<(Value, CodeMap), Error<E>>) -> String {
     let s = full_str(&r);
     if let Ok((v, _)) = r {
@@ -224,6 +262,9 @@ pub fn entry_points_agree(s: &str, o: u32) -> String {
     if !declared_lengths_agree(s, o) {
         return "EP=declared_lengths".into();
     }
+    if !stream_errors_agree(s, o) {
+        return "EP=stream_errors".into();
+    }
     "EP=1".into()
 }
 
@@ -246,7 +287,27 @@ pub fn eval_c02(line: &str) -> String {
     let line = line.to_string();
     guarded(move || match parse_case(&line) {
         Some((o, i)) => finish(run(o, &i), |r| match r {
-            Ok((v, _)) => format!("OK {} | {}", value_str(v), lookups(v)),
+            Ok((v, _)) => {
+                // every node's kind predicates and accessors agree with its variant (small documents)
+                let mut acc_ok = true;
+                let mut budget = 400usize;
+                let mut stack = vec![v];
+                while let Some(x) = stack.pop() {
+                    if budget == 0 {
+                        break;
+                    }
+                    budget -= 1;
+                    if value_str(x).len() < 4000 {
+                        acc_ok &= accessors_agree(x);
+                    }
+                    match x {
+                        Value::Array(a) => stack.extend(a.iter()),
+                        Value::Object(obj) => stack.extend(obj.iter().map(|e| &e.value)),
+                        _ => (),
+                    }
+                }
+                format!("OK {} | {}{}", value_str(v), lookups(v), if acc_ok { "" } else { " ACCESSORS-DISAGREE" })
+            }
             Err(_) => "ERR".into(),
         }) + &ep_suffix(o, &i),
         None => format!("BADCASE {line}"),
